@@ -159,7 +159,7 @@ Definition step13 (b : s13) (x : entry) : option s13 :=
           else None
       | EClockEnd _ w h =>
           if (w =? s_curw s) && (h =? s_curh s) then Some (with_exp [] false b) else None
-      | EProc w _ _ => if b_inframe b && (w =? b_fw b) then Some b else None
+      | EProc w _ _ | ECoro w _ => if b_inframe b && (w =? b_fw b) then Some b else None
       | EPoke _ tok w =>
           if b_inframe b then let '(s', l) := poke13 w tok s in Some (with_st s' l true b)
           else None
